@@ -438,6 +438,10 @@ def read_checkers(path: Path):
     if "assert name.startswith('r')" not in asserts:
         fail(find_func(rc, "parse_name"), "ReversingChecker.parse_name no longer strips a leading r")
     sy = [ast.unparse(s) for s in strip_doc(find_func(rc, "synthesize").body)]
+    # an arity guard in front (a located error for explicit calls with != 2 arguments) does not
+    # change what a two-argument call, the only kind a binary operator produces, does
+    if sy and sy[0] == "check_num_args(2, len(args), self.node)":
+        sy = sy[1:]
     if len(sy) != 5 or sy[0] != "[self_arg, other_arg] = args" or sy[1] != "self_arg, self_ty = ExprSynthesizer(self.ctx).synthesize(self_arg)" \
             or sy[2] != "f = self.ctx.globals.get_instance_func(self_ty, self.parse_name())" or sy[3] != "assert f is not None":
         fail(find_func(rc, "synthesize"), "ReversingChecker.synthesize")
